@@ -17,6 +17,10 @@ use crate::{
 
 pub fn conformance(w: &World, r: usize, e: &Edge) -> Vec<(String, String)> {
     let mut v = vec![];
+    if let (InputKind::Restart, Some(p)) = (e.input, &e.out.panicked) {
+        v.push(("replica_restart_fails".into(), format!("the restarted node does not come back up: {p}")));
+        return v;
+    }
     let InputKind::Step(input, policy) = e.input else { return v };
     if let Some(p) = &e.out.panicked {
         v.push(("replica_panic".into(), format!("on input '{}' the replica panicked - the node is built with panic = abort, so the process dies; the specification never aborts: {}", e.input_desc, p.lines().take(2).collect::<Vec<_>>().join(" "))));
